@@ -1,7 +1,9 @@
 SPECIFICATION Spec
 CONSTANTS
   AddrNegCountPanic = FALSE
-  Level = 1
+  OfflineSigSkipped = FALSE
+  Level = 0
 VIEW view
 PROPERTIES NoPanic HeaderChecksOK
+INVARIANTS EveryTypeRoundTrips
 CHECK_DEADLOCK FALSE
